@@ -63,8 +63,7 @@ def _depth_expr(P, e, rec):
     if _is_rec_field(e, rec, 'depth'):
         return 0
     if e[0] == 'call' and ir.callee_name(e) == 'Exception_Len' and ir.top_nocast(e[2][0]) in rec:
-        _check_len_helper(P)
-        return 0
+        return _check_len_helper(P)
     if e[0] == 'bin' and e[1] in ('+', '-'):
         a = _depth_expr(P, e[2], rec)
         b = util.const_int(e[3], P.enums)
@@ -77,19 +76,28 @@ _len_checked = {}
 
 
 def _check_len_helper(P):
-    """Exception_Len must return the depth field of its argument on its only path."""
+    """Exception_Len must return the depth field of its argument (plus a constant) on its only path; returns that constant."""
     if 'ok' in _len_checked.get(id(P), {}):
-        return
+        return _len_checked[id(P)]['off']
     f = P.fn('Exception_Len')
     g = P.cfg(f)
     rec = _record_vars(P, f) | util.aliases_of_param(f, 0) | {('param', f['params'][0][0], 0)}
     rets = [n for n in g.live() if n['kind'] == 'ret']
-    ok = len(rets) == 1 and _is_rec_field(rets[0]['expr'], rec, 'depth') and \
+    off = None
+    if len(rets) == 1:
+        r = ir.top_nocast(rets[0]['expr'])
+        if _is_rec_field(r, rec, 'depth'):
+            off = 0
+        elif r[0] == 'bin' and r[1] in ('+', '-') and _is_rec_field(r[2], rec, 'depth') and util.const_int(r[3], P.enums) is not None:
+            off = util.const_int(r[3], P.enums) * (1 if r[1] == '+' else -1)
+    ok = off is not None and \
         not any(ev['t'] == 'write' and ir.top_nocast(ev['lhs'])[0] != 'local'
                 for n in g.live() if n['expr'] is not None for ev in util.expr_events(n['expr'], n))
     if not ok:
-        raise Undecided('Exception_Len is no longer a plain accessor of depth')
+        raise Undecided('Exception_Len is no longer an accessor of depth (plus a constant)')
     _len_checked.setdefault(id(P), {})['ok'] = True
+    _len_checked[id(P)]['off'] = off
+    return off
 
 
 def _atom(P, cond, rec, fn):
@@ -197,9 +205,12 @@ def summarise(P, name, ctx):
                 elif lhs[0] == 'idx' and _is_rec_field(lhs[1], rec, 'buffers'):
                     k = _depth_expr(P, lhs[2], rec)
                     r = ir.top_nocast(ev['rhs'])
-                    if k is None or r[0] != 'param':
+                    if k is not None and ir.is_null(ev['rhs']):
+                        effects.append(('clearbuf', k))
+                    elif k is None or r[0] != 'param':
                         raise Undecided('buffer slot write not of the form buffers[depth+k] = param in %s' % name)
-                    effects.append(('setbuf', k))
+                    else:
+                        effects.append(('setbuf', k))
                 elif lhs[0] in ('arrow', 'dot', 'idx', 'un'):
                     raise Undecided('write to `%s` in %s is outside the exception-record vocabulary' % (ir.fmt(lhs), name))
             elif t == 'call':
@@ -276,9 +287,10 @@ MAXD = 2048
 
 
 class Machine:
-    def __init__(self, summ, maxdepth):
+    def __init__(self, summ, maxdepth, init_depth=0):
         self.s = summ
-        self.depth = 0
+        self.depth = init_depth
+        self.base = init_depth
         self.active = False
         self.obj = None
         self.bufs = {}
@@ -356,6 +368,8 @@ class Machine:
                 self.obj = thrown
             elif ef[0] == 'setbuf':
                 self.bufs[self.depth + ef[1]] = frame
+            elif ef[0] == 'clearbuf':
+                self.bufs[self.depth + ef[1]] = None
             elif ef[0] == 'diag':
                 self.diag += 1
         r = p['result']
@@ -366,6 +380,8 @@ class Machine:
             tgt = self.bufs.get(self.depth - 1)
             if self.depth == 0:
                 raise Abort()
+            if tgt is None and self.depth - 1 < self.base:
+                raise Refuted('%s jumps through buffer slot %d, which no try block ever filled (the record starts at depth %d): a jump through a NULL buffer' % (name, self.depth - 1, self.base))
             raise Jump(tgt)
         if r[0] == 'fatal':
             raise Fatal()
@@ -709,12 +725,20 @@ def check_protocol(P, ctx, summ, budget, depth):
     steps = 0
     first_bad = None
     nbad = 0
+    # the depth a fresh exception record starts with (Exception_New)
+    init_depth = 0
+    fnew = P.fn('Exception_New', required=False)
+    if fnew is not None:
+        for e_, _ in ir.all_exprs(fnew['body']):
+            for ev in util.expr_events(e_, None):
+                if ev['t'] == 'write' and ev['op'] == '=' and util.field_name(ev['lhs']) == 'depth' and util.const_int(ev['rhs'], P.enums) is not None:
+                    init_depth = util.const_int(ev['rhs'], P.enums)
     for prog in gen_programs(budget, depth, kinds, filters):
         prog = label(prog)
         nprog += 1
         rt = []
         rres = run_reference(prog, rt)
-        M = Machine(summ, P.enums.get('EXCEPTION_MAX_DEPTH', MAXD))
+        M = Machine(summ, P.enums.get('EXCEPTION_MAX_DEPTH', MAXD), init_depth=init_depth)
         bad = None
         try:
             run_machine(M, prog)
